@@ -291,8 +291,6 @@ ThreadPool::Snapshot ThreadPool::snapshot() const
 
 void ThreadPool::threadProc(ThreadToken thread_token)
 {
-    bool let_main_loop_join_me = false;
-
     LogDbg("thread %u start", thread_token.id());
 
     while (true) {
@@ -305,7 +303,18 @@ void ThreadPool::threadProc(ThreadToken thread_token)
              */
             if ((d_->idle_thread_num >= d_->undo_tasks_cabinet.size()) && (d_->threads_cabinet.size() > d_->min_thread_num)) {
                 LogDbg("thread %u will exit, no more work.", thread_token.id());
-                let_main_loop_join_me = true;
+                /**
+                 * Leave the cabinet in the same critical section as the decision: execute() must not count a
+                 * worker that is already on its way out, otherwise a task submitted right now gets no thread.
+                 * The thread object is handed to main_loop, which join()s and deletes it.
+                 */
+                auto t = d_->threads_cabinet.free(thread_token);
+                if (t != nullptr) {
+                    d_->wp_loop->runInLoop(
+                        [t]{ t->join(); delete t; },
+                        "ThreadPool::threadProc, join and delete it"
+                    );
+                }
                 break;
             }
 
@@ -368,20 +377,6 @@ void ThreadPool::threadProc(ThreadToken thread_token)
 
     LogDbg("thread %u exit", thread_token.id());
 
-    if (let_main_loop_join_me) {
-        //! 则将线程取出来，交给main_loop去join()，然后delete
-        std::unique_lock<std::mutex> lk(d_->lock);
-
-        auto t = d_->threads_cabinet.free(thread_token);
-        //! nullptr: cleanup() has already taken this thread out of the cabinet and will join and delete it itself
-        if (t != nullptr) {
-            d_->wp_loop->runInLoop(
-                [t]{ t->join(); delete t; },
-                "ThreadPool::threadProc, join and delete it"
-            );
-        }
-        //! 这个操作放到最后来做是为了减少主线程join()的等待时长
-    }
 }
 
 bool ThreadPool::createWorker()
